@@ -704,4 +704,12 @@ theorem range_filter_gt (n p : Nat) (h : p < n) : ((List.range n).filter (fun j 
   rw [this]
   omega
 
+theorem map_range_getD {α : Type} (l : List α) (d : α) : (List.range l.length).map (fun k => l.getD k d) = l := by
+  apply List.ext_getElem?
+  intro i
+  by_cases h : i < l.length
+  · simp [h, List.getD_eq_getElem?_getD]
+  · have h' : l.length ≤ i := Nat.le_of_not_lt h
+    simp [h]
+
 end HdVerif.SegFrameLoopLemmas
